@@ -25,7 +25,9 @@ Inductive xop :=
 | XRestart (lost : bool)           (* new process on the same / an empty certificate database, start-up reconciliation *)
 | XCrashEpoch (max : N)            (* epoch tick during which the process dies between "accepted" and "row stored"; restart *)
 | XCrashStatus (max : N)
-| XTickF (epoch : bool) (max rule : N).   (* aggchain-prover flow: a tick; rule = what the scripted prover answers *)
+| XTickF (epoch : bool) (max rule : N)    (* aggchain-prover flow: a tick; rule = what the scripted prover answers *)
+| XReorg (b : N)                   (* L2 reorg: the bridge syncer's Reorg(b); only blocks no live (non-InError) certificate covers *)
+| XNop.                            (* a generated L2 reorg the harness did not apply (it would drop certified blocks) *)
 
 (* ---------- observations ---------- *)
 Record exit_obs := mkXO { xo_exit : bridge_exit; xo_hash : N }.                 (* fields + BridgeExit.Hash() *)
@@ -98,7 +100,16 @@ Definition to_event (start : N) (s : xstate) (x : xop) : xrevent :=
   | XCrashEpoch max => RCrashTick true (cut_of start s max)
   | XCrashStatus max => RCrashTick false (cut_of start s max)
   | XTickF _ _ _ => RCore (AggMove (next_id s) Pending)              (* not an event of the PP flow: ignored *)
+  | XReorg _ | XNop => RCore (AggMove (next_id s) Pending)           (* XReorg is applied by corr_run itself; XNop: ignored *)
   end.
+
+(* L2 reorg of blocks that no live certificate covers. NOT an event of the proved protocol model (Model/AggsenderProtocol.v,
+   Proofs/AggsenderProofs.v): it is applied to the executable state here, for the correspondence only. The bridge syncer
+   deletes blocks >= b and their deposits; the exit tree and the root table are those of the remaining deposits. *)
+Definition ext_reorg (b : N) (s : xstate) : xstate :=
+  let l' := filter (fun k => k_num k <? b) (l2 s) in
+  let '(t', rs') := fold_left (fun acc k => add_leaves N bridge_ev bridge_leaf xtree xtree_add (fst acc) (snd acc) (k_bridges k)) l' (xtree_empty, []) in
+  State l' (fold_left N.max (map (fun k => k_num k) l') 0) t' rs' (rows s) (agg s) (next_id s) (fail_next s).
 
 (* what the model expects the Agglayer to receive / the table to hold, in the shape of the observations *)
 Definition exp_exit (b : bridge_ev) : exit_obs := mkXO (to_exit b) (bridge_leaf b).
@@ -124,7 +135,10 @@ Fixpoint corr_run (retry aggprev : bool) (start ler : N) (s : xrstate) (steps : 
   match steps, obs with
   | [], [] => true
   | x :: steps', o :: obs' =>
-    let '(s', subs) := xrstep retry start ler aggprev s (to_event start (xr_core s) x) in
+    let '(s', subs) := match x with
+                       | XReorg b => (XR (ext_reorg b (xr_core s)) (xr_info s) (xr_recovering s), [])
+                       | _ => xrstep retry start ler aggprev s (to_event start (xr_core s) x)
+                       end in
     let rows_now := match st_rows o with Some r => r | None => last end in
     list_rel sub_matches subs (st_subs o) &&
     list_eqb row_obs_eqb (map exp_row (rev (rows (xr_core s')))) rows_now &&       (* certificate_info ORDER BY height ASC *)
@@ -161,6 +175,7 @@ Fixpoint corr_run_fep (retry : bool) (start ler : N) (s : xstate) (steps : list 
       | XTickF epoch max rule =>
           let cut := cut_of_ty CertCut.TFEP start s max in
           xstep_fep retry start ler rule s (if epoch then EpochTick cut else StatusTick cut)
+      | XReorg b => (ext_reorg b s, [])
       | _ => match to_event start s x with RCore e => xstep_fep retry start ler 0 s e | _ => (s, []) end
       end in
     let rows_now := match st_rows o with Some r => r | None => last end in
@@ -255,6 +270,9 @@ Definition env_step (e : env) (x : xop) : env :=
   | XBlock skip bs cs => let n := e_synced e + skip + 1 in mkEnv (e_hist e ++ [(n, bs, cs)]) n (e_certs e)
   | XMove id s => env_move e id s
   | XMoveLast s => match length (e_certs e) with O => e | S k => env_move e (N.of_nat k) s end
+  | XReorg b =>
+      let h' := filter (fun x => let '(n, _, _) := x in n <? b) (e_hist e) in
+      mkEnv h' (fold_left N.max (map (fun x => let '(n, _, _) := x in n) h') 0) (e_certs e)
   | _ => e
   end.
 
